@@ -90,7 +90,7 @@ class PIO(SeqCheck):
     oracle_entry = "pio_oracle"
     overlay = {"packetio/verif_export.go": "packetio/verif_export.go"}
     quick_n = 1200
-    thorough_n = 40000
+    thorough_n = 30000
     shards = 12
     stack_unlimited = True
     rule = ("sequential histories of Write/Read/SetLimitCount/SetLimitSize/Close/Count/Size on a real packetio.Buffer; "
